@@ -93,8 +93,34 @@ func runC22(rc *RunCtx, i int) {
 		if k%3 == 1 {
 			q = &bs.Query{}
 		}
+		// a quarter of the queries are cancelled or closed part-way (their workers may be
+		// waiting for a slot at that moment); the gauge must not notice
+		abandonAfter := time.Duration(-1)
+		if k%4 == 2 {
+			abandonAfter = time.Duration(r.Range(0, 4000)) * time.Microsecond
+		}
+		closeIt := k%8 == 2
 		go func() {
 			defer wg.Done()
+			if abandonAfter >= 0 {
+				ctx, cancel := context.WithCancel(context.Background())
+				defer cancel()
+				rs, err := e.Query(ctx, q)
+				if err != nil {
+					return
+				}
+				time.Sleep(abandonAfter)
+				if closeIt {
+					rs.Close()
+				} else {
+					cancel()
+				}
+				for rs.Next() {
+				}
+				rs.Close()
+				rc.Res.Count("queries_abandoned_midway", 1)
+				return
+			}
 			res := world.RunQuery(context.Background(), e, q)
 			emu.Lock()
 			defer emu.Unlock()
